@@ -286,7 +286,7 @@ def lens_around(rng, n):
 #   Mul<F>, Neg                                        s_scale, s_neg
 #   mul: zero | BTreeMap and_modify / or_insert |      s_mul: (1+x)(1-x)-type cancellations are in the F5 exhaustive
 #        filter zero sums (F04)                        set and 'negated'/'same_top_half' partners
-#   from_coefficients_vec: pop | sort | assert         s_from_vec: shuffled, trailing zero entries
+#   from_coefficients_vec: retain | sort | assert      s_from_vec: shuffled, zero entries anywhere, repeated degrees
 #   From<Sparse> for Dense, From<Dense> for Sparse     s_to_dense, d_to_sparse (+ every zero-operand branch above)
 #  mod.rs
 #   divide_with_q_and_r: self 0 | deg< | loop          divide_xx: zero, lower_degree, same_degree, multiple (r = 0),
@@ -458,6 +458,26 @@ def gen(rng, tier):
                     flat += [d, 0]
             ca += '/trailing_zero_entries'
         yield 's_from_vec', [[p], flat], ca
+    # ---- from_coefficients_vec on ANY raw list: zero-coefficient entries anywhere (first, interior, last, of the
+    # largest degree so that they sort last), repeated degrees (stable sort: original order kept), all-zero lists
+    for _ in range(300 * scale):
+        p = fields_for(rng)
+        n = rng.randrange(1, 8)
+        kind = rng.choice(['zeros_anywhere', 'zero_sorts_last', 'repeated_degrees', 'all_zero', 'mixed'])
+        ds = rng.sample(range(0, 25), n) if kind != 'repeated_degrees' else [rng.randrange(0, 4) for _ in range(n)]
+        cs = [nz(rng, p) for _ in range(n)]
+        if kind in ('zeros_anywhere', 'mixed'):
+            for i in range(n):
+                if rng.randrange(3) == 0:
+                    cs[i] = 0
+        if kind == 'zero_sorts_last':
+            cs[ds.index(max(ds))] = 0
+        if kind == 'all_zero':
+            cs = [0] * n
+        if kind == 'mixed':
+            ds = [rng.choice(ds) for _ in range(n)]
+        flat = [x for pr in zip(ds, cs) for x in pr]
+        yield 's_from_vec', [[p], flat], 'sraw/' + kind
     # ---- dense (op) sparse: sparse degree above / below / equal, cancelling leading term,
     # zero operands on either side
     for _ in range(2000 * scale):
